@@ -101,7 +101,7 @@ PickByVal(g) ==
     THEN PickShrink(g)
     ELSE LET k == RandomElement(0..(ByValueMax + Z)) IN [i \in 1..k |-> PickItem(g)]
 
-CONSTANTS WPropose, WCommit, WApp, WStore      \* category weights (percent) of non-progress steps
+CONSTANTS WPropose, WCommit, WApp, WStore, LateBias      \* category weights (percent) of non-progress steps
 
 Mem == {p \in Parties : HasGroup(p)}
 \* one member drawn at random (re-drawn at every use): successors are computed for one actor only
@@ -135,17 +135,33 @@ SimCommit ==
 
 \* application traffic: bursts, deliveries biased to what the receiver can still read, the newest message
 \* first (reordering), and re-delivery of messages that were already accepted (replay)
+\* q holds the secrets of the epoch app a was sent in: its current epoch, or a prior epoch it still has a record of
+Readable(q, a) ==
+    \/ apps[a].ks = grp[q].ks
+    \/ \E i \in 1..Len(repo[q].ins) : repo[q].ins[i].ks = apps[a].ks
+    \/ \E i \in 1..Len(repo[q].upd) : repo[q].upd[i].ks = apps[a].ks
+    \/ \E i \in 1..Len(store[q].epochs) : store[q].epochs[i].ks = apps[a].ks
 Accepted == {i \in 1..Len(hist) : hist[i].a = "DeliverApp" /\ hist[i].res = "ok"}
-SimApp ==
+LateAccepted == {i \in Accepted : HasGroup(hist[i].p) /\ apps[hist[i].args.app].epoch < grp[hist[i].p].epoch}
+SimAppRegular ==
     \/ \E p \in Mem : \E k \in {RandomElement({1, 1, 2, 3, 3, Window, Window + 1, Window + 2, 2 + Z})} : Encrypt(p, k)
     \/ Len(apps) > 0 /\ \E q \in Mem : \E a \in {RandomElement(1..Len(apps))} :
             \E gen \in {RandomElement({apps[a].lo, apps[a].hi, RandomElement(apps[a].lo..apps[a].hi)})} : DeliverApp(q, a, gen)
-    \/ \E q \in Mem : \E a \in {a \in 1..Len(apps) : apps[a].ks = grp[q].ks \/ apps[a].epoch + Retention + 1 >= grp[q].epoch} :
+    \/ \E q \in Mem : \E a \in {a \in 1..Len(apps) : Readable(q, a)} :
             \E gen \in {apps[a].hi, RandomElement(apps[a].lo..apps[a].hi)} : DeliverApp(q, a, gen)
-    \/ \E q \in Mem : \E a \in {a \in 1..Len(apps) : apps[a].ks = grp[q].ks \/ apps[a].epoch + Retention + 1 >= grp[q].epoch} :
+    \/ \E q \in Mem : \E a \in {a \in 1..Len(apps) : Readable(q, a)} :
             \E gen \in {apps[a].hi, RandomElement(apps[a].lo..apps[a].hi)} : DeliverApp(q, a, gen)
     \/ Accepted # {} /\ \E i \in {RandomElement(Accepted)} : DeliverApp(hist[i].p, hist[i].args.app, hist[i].args.gen)
     \/ Accepted # {} /\ \E i \in {RandomElement(Accepted)} : DeliverApp(hist[i].p, hist[i].args.app, hist[i].args.gen)
+
+\* late messages (of epochs the receiver has left but still retains): first deliveries in any order of epochs
+\* (ascending and descending), re-delivery of accepted ones.  Drawn with a weight of its own: the regular
+\* disjuncts have so many instances that uniformly chosen successors would hardly ever be late ones.
+SimAppLate ==
+    \/ \E q \in Mem : \E a \in {a \in 1..Len(apps) : apps[a].ks # grp[q].ks /\ Readable(q, a)} :
+            \E gen \in {apps[a].lo, apps[a].hi} : DeliverApp(q, a, gen)
+    \/ \E i \in {i \in LateAccepted : Cardinality({j \in LateAccepted : j > i}) < 3} : DeliverApp(hist[i].p, hist[i].args.app, hist[i].args.gen)
+SimApp == IF RandomElement(1..(10 + Z)) <= LateBias /\ ENABLED SimAppLate THEN SimAppLate ELSE SimAppRegular
 
 SimStore ==
     \/ \E p \in Mem : Write(p)
